@@ -103,7 +103,8 @@ def descriptor(shape, rec):
     p = shape["part"]
     if p == "pair":
         return {"part": "pair", "op": shape["op"], "ty": shape["ty"], "ctx": shape["ctx"], "expected": rec["out"],
-                "a_class": pclass(rec["a"]), "b_class": pclass(rec["b"])}
+                "a_class": pclass(rec["a"]), "b_class": pclass(rec["b"]),
+                "both_empty_bytes": rec["a"] in ("b_", "B_") and rec["b"] in ("b_", "B_")}
     if p == "chain":
         n = rec["n"]           # operands evaluated: the deciding link is n - 1
         op = shape["ops"][n - 2]
@@ -496,10 +497,13 @@ def run(tier, seed):
     for f in rng.sample(swfuncs, 2):
         samples.append({"part": "switch", "typing": f["typing"], "source": f["pyx"], "subjects": lc.SUBJECTS, "expected": sw_expected[f["name"]]})
 
+    # distinct (function, arguments) pairs that were really executed on compiled code
     nontriv = 0
-    for name, (s, recs) in per_func.items():
-        nontriv += len({json.dumps(case_args(s, rec), sort_keys=True) for rec in recs})
-    nontriv += sum(len(lc.SUBJECTS) for _ in swfuncs) * 2
+    for (b, names, table) in jobs:
+        for name in names:
+            s, recs = per_func[name]
+            nontriv += len({json.dumps(case_args(s, rec), sort_keys=True) for rec in recs})
+    nontriv += sum(len(lc.SUBJECTS) * len(names) for (b, names, table, mode) in swjobs)
     tl = cov["tlc"]
     cov.update({
         "states": sum(t["states_generated"] for t in tl), "distinct_states": sum(t["distinct_states"] for t in tl),
